@@ -28,6 +28,7 @@ Deliver(e, i) ==
 Macro(e, i) ==
     IF e.lib_status = "panic" THEN Report(i, "SKIP", "library panics")
     ELSE IF e.expands # (e.lib_status = "ok") THEN Report(i, "MISMATCH", "asn1! expands although the library returns Err, or fails although it returns Ok: " \o e.detail)
+    ELSE IF e.expands /\ ~e.comparable THEN Report(i, "SKIP", "asn1! expanded; a derive macro of rasn rejects the bindings (C01), no expansion to compare")
     ELSE IF e.expands /\ ~e.same_items THEN Report(i, "MISMATCH", "asn1! expansion differs from the library's bindings: " \o e.detail)
     ELSE TRUE
 
